@@ -182,6 +182,15 @@ theorem ep_edge_update_equivariant (c k : α) (hc : 0 < c) (hk : 0 < k) (P : Pro
       = (edgeUpdate P edges lik fixedAge maxShape minStep tiny s ei).rate k :=
   edgeUpdate_rate c k hc hk P hP edges lik fixedAge maxShape minStep tiny s ei
 
+/-- The model's edge update is `edgePost ∘ edgePre`: stage B runs the two halves at `Float` with the REAL
+projection kernel (approx.py) called in between on exactly the arguments `edgePre` computed, and compares the
+resulting posterior, edge factor and scale bit-for-bit with a single-edge `propagate_likelihood`. -/
+theorem ep_edge_update_split (P : Projections α) (edges : List (Nat × Nat)) (lik : List (α × α))
+    (fixedAge : List (Option α)) (maxShape minStep tiny : α) (s : EPState α) (ei : Nat) :
+    edgeUpdate P edges lik fixedAge maxShape minStep tiny s ei
+      = edgePost P maxShape ei (edgePre edges lik fixedAge minStep tiny s ei) :=
+  edgeUpdate_eq_post_pre P edges lik fixedAge maxShape minStep tiny s ei
+
 /-- **`propagate_prior`**: the exponential regularisation penalty is a rate, the EM stopping rule
 compares rates with rates, so the same number of EM steps is taken. -/
 theorem propagate_prior_equivariant (ofNat : Nat → α) (k : α) (hk : 0 < k) (free : List Bool)
